@@ -394,8 +394,8 @@ class Schema(dict, metaclass=LogicalMeta):
                 )
             super().__delitem__(field.name)
 
-        if field.name in self.__dict__:
-            self.__dict__.pop(field.attname)
+        # the attribute of the removed key goes with it (the attname differs from the name for an aliased field)
+        self.__dict__.pop(field.attname, None)
 
     def __delitem__(self, key: str):
         if self.__options__.immutable:
@@ -426,6 +426,7 @@ class Schema(dict, metaclass=LogicalMeta):
                     raise exc.DeleteError(
                         f"{self.__name__}: Attempt to delete required schema key: {repr(key)}"
                     )
+                self.__dict__.pop(field.attname, None)
         return super().popitem()
 
     def pop(self, key: str, default=unprovided):
@@ -446,7 +447,12 @@ class Schema(dict, metaclass=LogicalMeta):
                 f"{self.__name__}: Attempt to delete required schema key: {repr(key)}"
             )
         args = () if unprovided(default) else (default,)
-        return super().pop(field.name, *args)
+        present = field.name in self
+        value = super().pop(field.name, *args)
+        if present:
+            # the attribute of the removed key goes with it
+            self.__dict__.pop(field.attname, None)
+        return value
 
     def update(self, __m=None, **kwargs):
         if self.__options__.immutable:
@@ -512,6 +518,8 @@ class Schema(dict, metaclass=LogicalMeta):
                 raise exc.DeleteError(
                     f"{self.__name__}: Attempt to delete required schema key: {repr(key)}"
                 )
+        for field in self.__parser__.fields.values():
+            self.__dict__.pop(field.attname, None)
         return super().clear()
 
 
